@@ -93,6 +93,13 @@ def run(rep, tier, seed):
                     if name == "consistency-preservation":
                         holder["h"] = h
                     drive.run_op(rep, h)
+    # deeper slice for the operators with a tie-breaking recursion: three conditionals
+    # (two layers with a two-conditional layer become possible) for And / cautious monotony
+    for system, pm, lvl in [("system-w", "rc2", "L2"), ("lex_inf", "rc2", "L2")] + ([] if quick else [("system-w", "z3", "L1"), ("lex_inf", "z3", "L1")]):
+        for N, M in ([(2, 3)] if quick else [(2, 3), (3, 3)]):
+            for name, nl, qf, prop in [x for x in postulates(M, None) if x[0] in (("and", "cautious-monotony") if quick else ("and", "or", "cautious-monotony", "cut"))]:
+                h = multi.MultiHarness("%s: %s/%s strict N=%d M=%d" % (name, system, pm, N, M), [dict(system=system, pm=pm, weakly=False, level=lvl)], N, M, nl, qf, prop)
+                drive.run_op(rep, h)
     # vacuity: rational monotony must FAIL for p-entailment (it is not rational)
     h = multi.MultiHarness("vacuity twin: rational monotony for p-entailment must be refuted N=2 M=2", [dict(system="p-entailment", pm="")], 2, 2, 3,
                            lambda L: [(L("X2"), L("X0")), (tt.Not(L("X1")), L("X0")), (L("X2"), tt.And(L("X0"), L("X1")))], rm_prop)
